@@ -55,6 +55,8 @@ type rGen struct {
 	rbuf        int
 	limit       int64
 	badErrSeen  bool
+	whole       bool // cut mode: the whole stream arrives before the transport ends
+	tailBig     bool
 	localClosed bool
 	nonMinCtl   bool
 	frames      []gFrame
@@ -343,6 +345,13 @@ func (g *rGen) build() {
 		g.injectViolation(false)
 		return
 	}
+	if g.tailBig {
+		t := 1 + r.Intn(2)
+		p := g.data(300 + r.Intn(3000))
+		g.msgs = append(g.msgs, gMsg{t: t, plain: p, raw: p, first: len(g.frames), last: len(g.frames)})
+		g.addFrame(encFrame{fin: true, op: t, payload: p}, nmsg)
+		return
+	}
 	// optional close frame at the end
 	if r.Intn(3) == 0 {
 		g.addFrame(g.closeFrame(true), -1)
@@ -451,11 +460,23 @@ func (g *rGen) setup() {
 			g.hc = "fail9"
 		}
 	}
+	if g.opt.mode == "cut" && r.Intn(8) == 0 {
+		// the whole stream arrives and then the transport ends (cleanly or not, possibly together with
+		// the last bytes): every message is complete and must be so reported. Half of these end in a large
+		// single-frame message read with large reads through a small bufio buffer (bufio's direct-read path).
+		g.whole = true
+		g.tailBig = r.Intn(2) == 0
+		if g.tailBig {
+			g.rbuf = []int{1, 125, 127, 200, 256}[r.Intn(5)]
+		}
+	}
 	g.build()
 	g.cut = len(g.stream)
 	if g.opt.mode == "cut" {
 		g.cut = r.Intn(len(g.stream) + 1)
-		if r.Intn(4) == 0 && len(g.frames) > 0 {
+		if g.whole {
+			g.cut = len(g.stream)
+		} else if r.Intn(4) == 0 && len(g.frames) > 0 {
 			// cut near a frame boundary
 			f := g.frames[r.Intn(len(g.frames))]
 			g.cut = []int{f.start, f.hdrEnd, f.end, f.start + 1, f.end - 1}[r.Intn(5)]
@@ -480,8 +501,11 @@ func (g *rGen) setup() {
 			termTok = "err:78"
 		}
 	}
-	if g.opt.together && len(g.t.chunks) > 0 && r.Intn(2) == 0 {
+	if g.opt.together && len(g.t.chunks) > 0 && (r.Intn(2) == 0 || g.tailBig) {
 		g.t.together = true
+	}
+	if g.tailBig && r.Intn(2) == 0 {
+		g.t.term, termTok = nil, "eof"
 	}
 	if g.opt.mode == "cut" && termTok != "eof" && g.cut < len(g.stream) && r.Intn(2) == 0 {
 		// a transient fault: after the error the transport would deliver the rest of the stream. The
@@ -842,6 +866,10 @@ func (g *rGen) program() {
 		choice := r.Intn(6)
 		if g.fuzzy && (choice == 1 || choice == 2) {
 			choice = 3
+		}
+		if g.tailBig {
+			g.opReadAll(h, []int{4096, 8192, 70000}[r.Intn(3)])
+			continue
 		}
 		switch choice {
 		case 0:
